@@ -97,4 +97,13 @@ theorem upgrade_install_forwards_skip_flag :
        ("DisableOpenAPIValidation", "client.DisableOpenAPIValidation")] = true := by
   decide
 
+/-- `--skip-schema-validation` is the only flag bound to SkipSchemaValidation, in install and upgrade
+(regenerated from pkg/cmd at every run). -/
+theorem skip_flag_bound :
+    Helm.Spec.forwardsAll Helm.Gen.installFlags [("skip-schema-validation", "client.SkipSchemaValidation")] = true ∧
+    Helm.Spec.forwardsAll Helm.Gen.upgradeFlags [("skip-schema-validation", "client.SkipSchemaValidation")] = true ∧
+    (Helm.Gen.installFlags.filter (fun p => p.2 == "client.SkipSchemaValidation")).length = 1 ∧
+    (Helm.Gen.upgradeFlags.filter (fun p => p.2 == "client.SkipSchemaValidation")).length = 1 := by
+  decide
+
 end Helm.Props.C14
